@@ -4,7 +4,8 @@ import concurrent.futures, json, os, traceback
 from vlib import common as C, e2e, sysrun as S
 
 PROP = "C01"
-THEOREMS = ["GitAi.DiffParse.parseHunkRanges_headerLine", "GitAi.DiffParse.parse_render_exact", "GitAi.DiffParse.normPath_plain"]
+THEOREMS = ["GitAi.DiffParse.parseHunkRanges_headerLine", "GitAi.DiffParse.parse_render_exact", "GitAi.DiffParse.normPath_plain",
+            "GitAi.Sys.commit_exact"]
 
 FILE_NAMES = ["f1.txt", "src/main.rs", "dir/my file.txt", "ünï.txt", "-dash.txt", "q\"uote.txt", "a/b/c.py", "tab\tname.txt"]
 
@@ -138,6 +139,8 @@ def run_scenario(sc):
             for i in range(1, len(run.commits)):
                 check_commit(run, i, failures)
             ncommits = len(run.commits)
+            observed = [S.observed_note_lines(run.repo.note(sha)) for sha, _ in run.commits[1:]]
+            sc["_observed"] = observed
     except Exception as ex:
         failures.append(("runner-exception", {"error": repr(ex), "trace": traceback.format_exc()[-1500:]}))
         ncommits = 0
@@ -148,6 +151,21 @@ def phase_e2e(res, seeds, threads=16):
     scs = [gen_scenario(s) for s in seeds]
     with concurrent.futures.ThreadPoolExecutor(threads) as ex:
         outs = list(ex.map(run_scenario, scs))
+    # correspondence of the history-level Lean model (Model/Sys.lean) with the binary: predicted vs
+    # observed note lines of every commit of every scenario
+    ncmp, nbad, first = 0, 0, None
+    for sc in scs:
+        if "_observed" not in sc:
+            continue
+        n, bad = S.sys_compare(sc, sc.pop("_observed"), C.run_driver)
+        ncmp += n; nbad += len(bad)
+        if bad and first is None:
+            first = {"seed": sc["seed"], "disagreement": bad[0]}
+    res.obligation("correspondence:sys-e2e (Sys model's predicted notes vs notes written by the binary)", nbad == 0, "correspondence")
+    cs = res.extra.setdefault("correspondence", {}).setdefault("sys-e2e", {"compared": 0, "disagreements": 0})
+    cs["compared"] += ncmp; cs["disagreements"] += nbad
+    if nbad:
+        res.broken_tie("correspondence:sys-e2e", {"disagreements": nbad, "of": ncmp, "first": first})
     for sc, (failures, ncommits) in zip(scs, outs):
         key = json.dumps(sc["steps"], ensure_ascii=False)
         res.count_case(key, nontrivial=ncommits >= 2)
